@@ -73,7 +73,7 @@ RECURSIVE AllocRun(_, _, _, _, _, _)
 AllocRun(rs, i, ni, n, r, reqs) ==
   LET q == Req("Allocate", ni, "lifetime600") IN
   IF i > 3 /\ "RetryForever" \notin Deviations THEN [out |-> "failed", reqs |-> reqs, auth |-> NoAuth, sn |-> n, sr |-> r, used |-> i - 1]
-  ELSE IF i > Len(rs) THEN [out |-> "failed", reqs |-> reqs, auth |-> NoAuth, sn |-> n, sr |-> r, used |-> i - 1]
+  ELSE IF i > Len(rs) THEN [out |-> "incomplete", reqs |-> reqs, auth |-> NoAuth, sn |-> n, sr |-> r, used |-> i - 1]
   ELSE LET x == rs[i] IN
     IF x = "ok" THEN [out |-> "ok", reqs |-> Append(reqs, q), auth |-> ni, sn |-> n, sr |-> r, used |-> i]
     ELSE IF Stale(x)
@@ -88,11 +88,13 @@ AllocRun(rs, i, ni, n, r, reqs) ==
 
 AllocScripts == {<<a>> : a \in Reacts} \cup {<<a, b>> : a \in Reacts, b \in Reacts}
                 \cup {<<a, b, c>> : a \in Reacts, b \in Reacts, c \in Reacts}
+                \cup (IF "RetryForever" \in Deviations
+                      THEN {<<a, b, c, d>> : a \in Reacts, b \in Reacts, c \in Reacts, d \in Reacts} ELSE {})
 
 Gather(rs, lt) ==
   /\ pc = "gather"
   /\ LET res == AllocRun(rs, 1, NoAuth, sn, sr, <<>>) IN
-     /\ res.used = Len(rs)                       \* the script is exactly what the client consumes
+     /\ res.used = Len(rs) /\ res.out # "incomplete"   \* the script is exactly what the client consumes
      /\ drops + NDrops(rs) <= MaxDrops
      /\ alloc' = res.out
      /\ life' = (IF res.out = "ok" THEN lt ELSE 0)
@@ -126,26 +128,32 @@ Exch(m, extra, r1, r2) ==
 Connect(p1, b) ==
   /\ pc = "connect"
   /\ drops + NDrops(<<p1, b>>) <= MaxDrops
-  /\ (auth.has \/ (p1 = "ok" /\ b = "ok"))       \* without a credentials context no request can be built
-  /\ LET perm == Req("CreatePermission", auth, "peer")
-         okp  == p1 = "ok" /\ auth.has
-         bind == Req("ChannelBind", auth, "peer")
-         bound == okp /\ b = "ok"
-         via  == IF bound THEN "ChannelData" ELSE "Send"
-         reqs == IF ~auth.has THEN <<>>
-                 ELSE IF ~okp THEN <<perm>>
-                 ELSE <<perm, bind, [m |-> via, auth |-> (via = "Send" /\ auth.has), n |-> auth.n, r |-> auth.r, x |-> "check"],
-                        perm, [m |-> via, auth |-> (via = "Send" /\ auth.has), n |-> auth.n, r |-> auth.r, x |-> "nominate"]>>
-     IN /\ (okp \/ b = "ok")                      \* b is not consumed when the permission fails
-        /\ conn' = (IF okp THEN "connected" ELSE "failed")
-        /\ chan' = bound
-        /\ drops' = drops + NDrops(IF okp THEN <<p1, b>> ELSE IF auth.has THEN <<p1>> ELSE <<>>)
-        /\ hist' = Append(hist,
-             [op |-> "connect", reacts |-> (IF okp THEN <<p1, b>> ELSE IF auth.has THEN <<p1>> ELSE <<>>), reqs |-> reqs,
-              out |-> (IF okp THEN "connected" ELSE "failed"), bound |-> bound,
-              flags |-> (IF Stale(p1) THEN {"StaleNonceRetryInChecks"} ELSE {})
-                        \cup (IF p1 = "drop" /\ tr = "udp" THEN {"RequestRetransmission"} ELSE {})
-                        \cup (IF "DataBeforePermission" \in Deviations THEN {"PermissionBeforeData"} ELSE {})])
+  \* no request can be built without a credentials context; over TCP the relay candidate is labelled "tcp"
+  \* (the transport to the server) and never pairs with the peer's UDP candidate: no check is ever made
+  /\ LET able == auth.has /\ tr = "udp" IN
+     /\ (able \/ (p1 = "ok" /\ b = "ok"))
+     /\ LET perm == Req("CreatePermission", auth, "peer")
+            okp  == p1 = "ok" /\ able
+            bind == Req("ChannelBind", auth, "peer")
+            bound == okp /\ b = "ok"
+            via  == IF bound THEN "ChannelData" ELSE "Send"
+            dat(x) == [m |-> via, auth |-> (via = "Send" /\ auth.has), n |-> auth.n, r |-> auth.r, x |-> x]
+            reqs == IF ~able THEN <<>>
+                    ELSE IF ~okp THEN <<perm>>
+                    ELSE IF bound THEN <<perm, bind, dat("check"), perm, dat("nominate")>>
+                    ELSE <<perm, bind, dat("check"), perm, bind, dat("nominate")>>     \* an unbound peer is bound again
+            used == IF ~able THEN <<>> ELSE IF ~okp THEN <<p1>> ELSE IF bound THEN <<p1, b, "ok">> ELSE <<p1, b, "ok", b>>
+        IN /\ (okp \/ b = "ok")                      \* b is not consumed when the permission fails
+           /\ conn' = (IF okp THEN "connected" ELSE "failed")
+           /\ chan' = bound
+           /\ drops' = drops + NDrops(used)
+           /\ hist' = Append(hist,
+                [op |-> "connect", reacts |-> used, reqs |-> reqs,
+                 out |-> (IF okp THEN "connected" ELSE "failed"), bound |-> bound,
+                 flags |-> (IF able /\ Stale(p1) THEN {"StaleNonceRetryInChecks"} ELSE {})
+                           \cup (IF able /\ p1 = "drop" THEN {"RequestRetransmission"} ELSE {})
+                           \cup (IF auth.has /\ tr = "tcp" THEN {"RelayCandidateTransport"} ELSE {})
+                           \cup (IF "DataBeforePermission" \in Deviations THEN {"PermissionBeforeData"} ELSE {})])
   /\ pc' = "run"
   /\ UNCHANGED <<tr, alloc, life, auth, sn, sr, nref, age>>
 
